@@ -209,6 +209,10 @@ def case_network(ctx, rng):
         if any(not t.x.blocks for t in kets):
             return
         dang = network.dangling(kets)
+        if rng.random() < 0.5 and len(kets) >= 2:
+            # the kets have already been used (fused contraction) before they are conjugated
+            network.random_route(ctx, rng, kets, modes=("fused", "auto"))
+            ctx.count("feature", "kets-contracted-before-conj")
         bra_like = [nm for t in kets for nm, ix in zip(t.names, t.x.indices) if nm in dang and ix.dual]
         bras = []
         for t in kets:
